@@ -120,6 +120,7 @@ def Err.render : Err → String
 
 structure Tables where
   fns : List Fn
+  keys : List String
   keyReads : List (String × List String)
   flushKeepSssr : List String
   flushKeepComponents : List String
@@ -137,7 +138,7 @@ structure Tables where
 
 /-- today's source, as regenerated by `gen_effects` -/
 def current : Tables :=
-  { fns := fns, keyReads := keyReads, flushKeepSssr := flushKeepSssr, flushKeepComponents := flushKeepComponents,
+  { fns := fns, keys := cachedKeys, keyReads := keyReads, flushKeepSssr := flushKeepSssr, flushKeepComponents := flushKeepComponents,
     copyKeepSssr := copyKeepSssr, copyKeepComponents := copyKeepComponents, copySlots := copySlots, subSlots := subSlots,
     subCalls := subCalls, copyAtomsDeep := copyAtomsDeep, copyBondsDeep := copyBondsDeep, subAtomsDeep := subAtomsDeep,
     subBondsDeep := subBondsDeep, elementCopySharesXY := elementCopySharesXY }
@@ -447,7 +448,7 @@ def interp (T : Tables) (cx : Ctx) : List GEv → Cfg → Res
 structure World where
   objs : List Obj
   vecs : List (Int × Int)
-  deriving Repr, Inhabited
+  deriving DecidableEq, Repr, Inhabited
 
 inductive Op where
   | addAtom (o z : Nat) (n : Option Nat) (skip : Bool)
@@ -503,11 +504,18 @@ def copyObj (T : Tables) (o : Obj) (vecs : List (Int × Int)) (kS kC : Bool) : O
 def restrictAdj (adj : List (Nat × List (Nat × Bond))) (keep : List Nat) : List (Nat × List (Nat × Bond)) :=
   (adj.filter fun p => keep.contains p.1).map fun p => (p.1, p.2.filter fun kb => keep.contains kb.1)
 
-/-- qualified name of a method `substructure` calls on the object it creates -/
-def subFq (f : String) : String :=
-  if f == "fix_stereo" then "MoleculeStereo.fix_stereo"
-  else if f == "fix_structure" then "MoleculeContainer.fix_structure"
-  else if f == "calc_labels" then "MoleculeContainer.calc_labels" else f
+/-- the object `substructure` creates, before it calls `fix_structure` / `fix_stereo` on it: atoms in the original order,
+induced bonds, hydrogens copied unless they are to be recalculated, labels not copied, slots as the source assigns them -/
+def subObj (T : Tables) (o : Obj) (vecs : List (Int × Int)) (atoms : List Nat) (recalc : Bool) : Obj × List (Int × Int) :=
+  let keep := o.mol.ids.filter atoms.contains
+  let xv := copyXY T vecs (o.xy.filter fun p => keep.contains p.1)
+  ({ mol := ⟨o.mol.atoms.filter fun p => keep.contains p.1, restrictAdj o.mol.adj keep⟩
+     xy := xv.1, hs := if recalc then [] else o.hs.filter fun p => keep.contains p.1
+     labels := none, cache := []
+     name := if T.subSlots.contains "_name" then some none else none
+     info := if T.subSlots.contains "_meta" then some none else none
+     changed := if T.subSlots.contains "_changed" then some none else none
+     backup := if T.subSlots.contains "_backup" then some none else none }, xv.2)
 
 def step (T : Tables) (w : World) (op : Op) (obs : List String) : Out :=
   let i := op.target
@@ -552,26 +560,18 @@ def step (T : Tables) (w : World) (op : Op) (obs : List String) : Out :=
       else if !(atoms.all o.mol.hasAtom) then { w := w, err := some (.lib "ValueError") }
       else if !(T.subAtomsDeep && T.subBondsDeep) then { w := w, err := some (.model "shallow substructure") }
       else
-        let keep := o.mol.ids.filter atoms.contains
-        let (xy, vecs') := copyXY T w.vecs (o.xy.filter fun p => keep.contains p.1)
-        let sub : Obj :=
-          { mol := ⟨o.mol.atoms.filter fun p => keep.contains p.1, restrictAdj o.mol.adj keep⟩
-            xy := xy, hs := if recalc then [] else o.hs.filter fun p => keep.contains p.1
-            labels := none, cache := []
-            name := if T.subSlots.contains "_name" then some none else none
-            info := if T.subSlots.contains "_meta" then some none else none
-            changed := if T.subSlots.contains "_changed" then some none else none
-            backup := if T.subSlots.contains "_backup" then some none else none }
+        let sv := subObj T o w.vecs atoms recalc
+        let sub := sv.1
         let j := w.objs.length
-        let w1 : World := { objs := w.objs ++ [sub], vecs := vecs' }
-        -- sub.fix_structure(recalculate_hydrogens=…); sub.fix_stereo()  (the calls the source makes, in order)
-        let r := T.subCalls.foldl (fun (acc : Out) f =>
-          match acc.err, acc.w.objs[j]? with
-          | none, some s =>
-              let r := runFn T acc.w j s { obs := obs } (subFq f) [("recalculate_hydrogens", recalc)]
-              { r with recalc := unionNat acc.recalc r.recalc }
-          | _, _ => acc) { w := w1 }
-        { r with created := some j }
+        let w1 : World := { objs := w.objs ++ [sub], vecs := sv.2 }
+        -- sub.fix_structure(recalculate_hydrogens=…); sub.fix_stereo()  (checked against the calls the source makes)
+        if T.subCalls != ["fix_structure", "fix_stereo"] then { w := w, err := some (.model "substructure calls") } else
+        let r1 := runFn T w1 j sub { obs := obs } "MoleculeContainer.fix_structure" [("recalculate_hydrogens", recalc)]
+        match r1.err, r1.w.objs[j]? with
+        | none, some s1 =>
+            let r2 := runFn T r1.w j s1 { obs := obs } "MoleculeStereo.fix_stereo" []
+            { r2 with recalc := unionNat r1.recalc r2.recalc, created := some j }
+        | _, _ => { r1 with created := some j }
   | .union _ p rmp cp =>
       match w.objs[p]? with
       | none => { w := w, err := some (.model "no such object") }
